@@ -114,6 +114,10 @@ def run(chk: Check) -> None:
     run_sticky(chk, scen, pid="C12", rid="R1", names=tuple(SCENARIOS))
     run_r5(chk, prog)
     run_tokenizer_history(chk, prog)
+    # contracts of other parts of the library this check takes for granted (summaries, token model, reference grammar):
+    # the clauses that check the source against them, replayed under this property (props/contracts.py)
+    from .contracts import run_contracts
+    run_contracts(chk, prog, ['tokenizer'])
     chk.exhaustive = True
     chk.max_undecided = 0
 
